@@ -252,6 +252,7 @@ def programs(tier: str) -> list[dict]:
     progs += [p for k, p in enumerate(P.fam_reshape(3, (1, 2, 3))) if k % 3 == 0]
     progs += list(P.fam_advanced(rng, [(3,), (4, 3), (2, 3, 4)], 25))
     progs += list(P.fam_einsum())
+    progs += list(P.fam_pairs())
     for p in progs:
         p["outs"] = {"out0": p["outs"]["out"]}
     n = 1200 if tier == "quick" else 20000
